@@ -311,6 +311,8 @@ struct PathsCfg
     // work; the PNM scanline reader seeks only when rows are stepped over (skip_binary_row)
     bool seeks = false;
     bool scan_skip_seeks = false;
+    bool scan_type_readable = false; // read_view also accepts the file's own pixel layout (the Scan type), e.g. bgr8 for TARGA
+    bool stepped_view_refused = false; // reader accepts exactly one view type (tiff palette: "User supplied image type must be rgb16_image_t.")
 };
 
 // Scan: pixel layout of the rows handed out by the scanline reader (the file's own layout, e.g. bgr8 for a 24 bit BMP)
@@ -359,6 +361,53 @@ struct Paths
         std::string why;
         if (!views_equal(gil::const_view(expect), gil::const_view(got), why)) return fail("convert-mismatch", std::string(as_view ? "read_and_convert_view" : "read_and_convert_image") + rg.text() + " != color_convert(native read): " + why);
         Outcome ok; ok.cls = "ok"; return ok;
+    }
+
+    // Destination views that are not plain: an x step that is not one pixel (mirrored, every second column of a wider image)
+    // or rows in reverse order, always inside a larger image whose other pixels must stay untouched. Only for interleaved
+    // byte-aligned native types (gil's readers are not required to compile for step views of bit-aligned pixels).
+    static Outcome view_stepped(Json const&, Native const&, Bytes&, char const*, DevSpec const&, std::false_type) { Outcome o; o.cls = "skipped"; return o; }
+    static Outcome view_stepped(Json const& op, Native const& ref, Bytes& bytes, char const* ext, DevSpec const& d, std::true_type)
+    {
+        return view_stepped_as<Native>(op, ref, bytes, ext, d);
+    }
+    // Dst: Native, or the file's own pixel layout (Scan, e.g. bgr8 for a 24 bit TARGA) where the reader accepts it
+    template <class Dst> static Outcome view_stepped_as(Json const& op, Native const& ref, Bytes& bytes, char const* ext, DevSpec const& d)
+    {
+        long W = (long)ref.width(), H = (long)ref.height();
+        int org = (int)(op.num("dorg") % 4);
+        Dst big(org == 2 ? 2 * W + 3 : W + 2, H + 2);
+        fill_const(gil::view(big), 0x5A);
+        Dst border_ref(big);
+        Outcome o; std::string why;
+        auto inner = gil::subimage_view(gil::view(big), 1, 1, (int)(org == 2 ? 2 * W : W), (int)H);
+        auto sinner = gil::subsampled_view(inner, 1, 1); // same pixels, view type with a run-time x step: closed under the four below
+        using step_t = decltype(sinner);
+        step_t dst = org == 1 ? step_t(gil::flipped_left_right_view(sinner))
+                   : org == 2 ? step_t(gil::subsampled_view(sinner, 2, 1))
+                   : org == 3 ? step_t(gil::rotated180_view(sinner))
+                   : step_t(gil::flipped_up_down_view(sinner));
+        guarded(o, [&] { with_read_device<Tag>(d, bytes, ext, [&](auto& dev) { gil::read_view(dev, dst, Tag()); }); });
+        char const* names[] = {"flipped_up_down", "flipped_left_right", "subsampled(2,1)", "rotated180"};
+        if (o.cls != "ok") return fail("unexpected-exception", std::string("read_view into a ") + names[org] + " view: " + o.cls + " " + o.what);
+        Native conv(W, H);
+        gil::copy_and_convert_pixels(dst, gil::view(conv)); // identity for Dst == Native; pairs the channels by colour otherwise
+        if (!views_equal(gil::const_view(ref), gil::const_view(conv), why)) return fail("view-mismatch", std::string("read_view into a ") + names[org] + " view != read_image: " + why);
+        // put back what the destination had before; everything else must be unchanged
+        step_t binner = gil::subsampled_view(gil::subimage_view(gil::view(border_ref), 1, 1, (int)(org == 2 ? 2 * W : W), (int)H), 1, 1);
+        step_t bdst = org == 1 ? step_t(gil::flipped_left_right_view(binner))
+                    : org == 2 ? step_t(gil::subsampled_view(binner, 2, 1))
+                    : org == 3 ? step_t(gil::rotated180_view(binner))
+                    : step_t(gil::flipped_up_down_view(binner));
+        gil::copy_pixels(bdst, dst);
+        if (!views_equal(gil::const_view(border_ref), gil::const_view(big), why)) return fail("wrote-outside-view", std::string("read_view into a ") + names[org] + " view changed pixels outside the destination view: " + why);
+        Outcome ok; ok.cls = "ok"; return ok;
+    }
+
+    static Outcome view_stepped_scan(Json const& op, Native const& ref, Bytes& bytes, char const* ext, DevSpec const& d, std::true_type) { return view_stepped_as<Scan>(op, ref, bytes, ext, d); }
+    static Outcome view_stepped_scan(Json const& op, Native const& ref, Bytes& bytes, char const* ext, DevSpec const& d, std::false_type)
+    {
+        return view_stepped(op, ref, bytes, ext, d, std::integral_constant<bool, std::is_pointer<typename Native::view_t::x_iterator>::value>());
     }
 
     // A device that cannot seek (pipe-like FILE*, forward-only streambuf) is still a FILE* / std::istream: a reader that needs
@@ -418,6 +467,13 @@ struct Paths
             auto crop = gil::subimage_view(gil::const_view(ref), (int)x, (int)y, (int)w, (int)h);
             if (!views_equal(crop, gil::const_view(got), why)) return fail("subrect-mismatch", "sub-rectangle " + rect + " != crop of full read: " + why);
             return ok;
+        }
+        if (p == "view" && op.num("dorg") != 0)
+        {
+            if (cfg.stepped_view_refused) { ok.cls = "skipped:refused"; return ok; }
+            if (cfg.scan_type_readable && op.num("dscan") != 0)
+                return view_stepped_scan(op, ref, bytes, ext, d, std::integral_constant<bool, std::is_pointer<typename Scan::view_t::x_iterator>::value && !std::is_same<Scan, Native>::value>());
+            return view_stepped(op, ref, bytes, ext, d, std::integral_constant<bool, std::is_pointer<typename Native::view_t::x_iterator>::value>());
         }
         if (p == "view")
         {
